@@ -224,7 +224,7 @@ class Build:
         if r['timeout']: res = 'TIMEOUT'
         elif r['rc'] == 77: res = 'REJECT'
         elif r['rc'] == 0 and 'PASS' in out: res = 'PASS'
-        elif r['rc'] == 1 and 'ASSERT' in out: res = 'ASSERT ' + re.search(r'ASSERT (-?\d+)', out).group(1)
+        elif r['rc'] == 1 and 'ASSERT' in out: res = 'ASSERT ' + ' '.join(re.findall(r'ASSERT (-?\d+)', out))   # every failed assertion id, in order
         elif r['rc'] == 3: res = 'STEPLIMIT'
         elif 'AddressSanitizer' in r['err'] or 'runtime error' in r['err'] or 'LeakSanitizer' in r['err']:
             mm = re.search(r'(AddressSanitizer: [-a-z]+|LeakSanitizer: [a-z ]+|runtime error: [^\n]+)', r['err'])
@@ -644,11 +644,11 @@ class Checker:
             rp = f.get('replay') or ''
             # the native run stops at its first failing assertion: any failure of this property (or a sanitizer report / crash /
             # runaway loop) on the solver's input confirms the counterexample
-            m = re.match(r'ASSERT (-?\d+)', rp)
-            if m:
-                aid = int(m.group(1))
-                if aid < 0: return f['kind'] != 'assert'
-                return aid // 1000 == pnum
+            if rp.startswith('ASSERT'):
+                ids = [int(x) for x in rp.split()[1:]]
+                if any(a // 1000 == pnum for a in ids if a > 0): return True
+                if any(a < 0 for a in ids): return f['kind'] != 'assert'
+                return False
             if rp.startswith(('SANITIZER', 'CRASH', 'STEPLIMIT', 'TIMEOUT')): return True
             # an IR-level 'unreachable' / terminate in straight-line code may not crash natively: accepted when the generated C
             # reproduces it deterministically on the same input
